@@ -1,6 +1,7 @@
 import ModbusModel.Lemmas.Client
 import ModbusModel.Lemmas.Call
 import ModbusModel.Lemmas.ClientFraming
+import ModbusModel.Model.Sync
 /-
   C06 – A client call succeeds only for the response that answers its request.
 -/
@@ -143,5 +144,46 @@ theorem reply_verdict_rtu (c : Client) (req : Request) (t : Transport) (slave : 
 example : ((Client.attach .tcp).call (.readHoldingRegisters 0 1)
     { reads := [.data [0, 9, 0, 0, 0, 5, 0xFF, 3, 2, 0, 1, 0, 0, 0, 0, 0, 5, 0xFF, 3, 2, 0, 7]] } none).1
     = .done (.headerMismatch (.ok (.readHoldingRegisters [1]))) := by decide +kernel
+
+/-- **call_success_only_for_answer**: the property as one statement about the whole call.  From
+    any client state, for any transport behaviour and poll budget: a call that returns a response
+    (or an exception) returns the decoding of some reply PDU, judged by `classify` under a reply
+    header equal to the header this call stamped, and its function code (or the function code
+    of the exception) is numerically the request's.  (Which bytes that PDU and header are taken
+    from is `reply_verdict_tcp/rtu` and the framing theorems of C04/C05.) -/
+theorem call_success_only_for_answer (c : Client) (req : Request) (t : Transport) (b : Budget) :
+    (∀ r, (c.call req t b).1 = .done (.ok r) →
+      ∃ rspHdr pdu, rspHdr = stampedHdr c ∧ decodeResponsePdu pdu = .ok (.ok r)
+        ∧ r.functionCode.value = req.functionCode.value)
+    ∧ (∀ e, (c.call req t b).1 = .done (.exception e) →
+      ∃ rspHdr pdu f, rspHdr = stampedHdr c
+        ∧ decodeResponsePdu pdu = .ok (.error { function := f, exception := e })
+        ∧ f.value = req.functionCode.value) := by
+  constructor
+  · intro r h
+    rcases call_result_decoded c req t b _ h with ⟨k, hk⟩ | hp | ⟨rspHdr, res, hx, pdu, hpdu⟩
+    · cases hk
+    · cases hp
+    · obtain ⟨h1, h2, h3⟩ := (success_only_if (stampedHdr c) rspHdr req.functionCode res).1 r hx.symm
+      subst h2
+      exact ⟨rspHdr, pdu, h1, hpdu, h3⟩
+  · intro e h
+    rcases call_result_decoded c req t b _ h with ⟨k, hk⟩ | hp | ⟨rspHdr, res, hx, pdu, hpdu⟩
+    · cases hk
+    · cases hp
+    · obtain ⟨h1, f, h2, h3⟩ := (success_only_if (stampedHdr c) rspHdr req.functionCode res).2 e hx.symm
+      subst h2
+      exact ⟨rspHdr, pdu, f, h1, hpdu, h3⟩
+
+/-- … and the same through the blocking client, with or without a timeout -/
+theorem blocking_success_only_for_answer (s : SyncContext) (req : Request) (t : Transport)
+    (deadline : Budget) (r : Response) (h : (s.call req t deadline).1 = .ok r) :
+    ∃ rspHdr pdu, rspHdr = stampedHdr s.asyncCtx ∧ decodeResponsePdu pdu = .ok (.ok r)
+      ∧ r.functionCode.value = req.functionCode.value := by
+  apply (call_success_only_for_answer s.asyncCtx req t (if s.timeout then deadline else none)).1 r
+  cases ho : (s.asyncCtx.call req t (if s.timeout then deadline else none)).1 with
+  | done x => simp [SyncContext.call, ho, withTimeout] at h; rw [h]
+  | abandoned => simp [SyncContext.call, ho, withTimeout] at h
+  | blocked => simp [SyncContext.call, ho, withTimeout] at h
 
 end Modbus.Props.C06
